@@ -75,47 +75,58 @@ func (a *API) Process(id string, submission *t_api.Request) (*t_api.Response, *E
 // Helper functions
 
 func (a *API) SearchPromises(id string, state string, tags map[string]string, limit int, cursor string) (*t_api.SearchPromisesRequest, *Error) {
+	var states []promise.State
+	var sortId *int64
+
 	if cursor != "" {
 		cursor, err := t_api.NewCursor[t_api.SearchPromisesRequest](cursor)
 		if err != nil {
 			return nil, RequestValidationError(err)
 		}
+		if cursor.Next == nil || len(cursor.Next.States) == 0 {
+			return nil, RequestValidationError(errors.New("The field cursor is invalid."))
+		}
 
-		return cursor.Next, nil
+		// continue from the cursor, its content is validated like any
+		// other client input
+		id = cursor.Next.Id
+		states = cursor.Next.States
+		tags = cursor.Next.Tags
+		limit = cursor.Next.Limit
+		sortId = cursor.Next.SortId
+	} else {
+		// set states
+		switch strings.ToLower(state) {
+		case "":
+			states = []promise.State{
+				promise.Pending,
+				promise.Resolved,
+				promise.Rejected,
+				promise.Timedout,
+				promise.Canceled,
+			}
+		case "pending":
+			states = []promise.State{
+				promise.Pending,
+			}
+		case "resolved":
+			states = []promise.State{
+				promise.Resolved,
+			}
+		case "rejected":
+			states = []promise.State{
+				promise.Rejected,
+				promise.Timedout,
+				promise.Canceled,
+			}
+		default:
+			return nil, RequestValidationError(errors.New("The field state must be one of pending, resolved, rejected."))
+		}
 	}
 
 	// validate id
 	if id == "" {
 		return nil, RequestValidationError(errors.New("The field id is required."))
-	}
-
-	// set states
-	var states []promise.State
-	switch strings.ToLower(state) {
-	case "":
-		states = []promise.State{
-			promise.Pending,
-			promise.Resolved,
-			promise.Rejected,
-			promise.Timedout,
-			promise.Canceled,
-		}
-	case "pending":
-		states = []promise.State{
-			promise.Pending,
-		}
-	case "resolved":
-		states = []promise.State{
-			promise.Resolved,
-		}
-	case "rejected":
-		states = []promise.State{
-			promise.Rejected,
-			promise.Timedout,
-			promise.Canceled,
-		}
-	default:
-		return nil, RequestValidationError(errors.New("The field state must be one of pending, resolved, rejected."))
 	}
 
 	// set default tags
@@ -138,17 +149,28 @@ func (a *API) SearchPromises(id string, state string, tags map[string]string, li
 		States: states,
 		Tags:   tags,
 		Limit:  limit,
+		SortId: sortId,
 	}, nil
 }
 
 func (a *API) SearchSchedules(id string, tags map[string]string, limit int, cursor string) (*t_api.SearchSchedulesRequest, *Error) {
+	var sortId *int64
+
 	if cursor != "" {
 		cursor, err := t_api.NewCursor[t_api.SearchSchedulesRequest](cursor)
 		if err != nil {
 			return nil, RequestValidationError(err)
 		}
+		if cursor.Next == nil {
+			return nil, RequestValidationError(errors.New("The field cursor is invalid."))
+		}
 
-		return cursor.Next, nil
+		// continue from the cursor, its content is validated like any
+		// other client input
+		id = cursor.Next.Id
+		tags = cursor.Next.Tags
+		limit = cursor.Next.Limit
+		sortId = cursor.Next.SortId
 	}
 
 	// validate id
@@ -172,9 +194,10 @@ func (a *API) SearchSchedules(id string, tags map[string]string, limit int, curs
 	}
 
 	return &t_api.SearchSchedulesRequest{
-		Id:    id,
-		Tags:  tags,
-		Limit: limit,
+		Id:     id,
+		Tags:   tags,
+		Limit:  limit,
+		SortId: sortId,
 	}, nil
 }
 
